@@ -660,4 +660,41 @@ func c19TypedErrors(r *mc.Run) {
 			r.Eval(id, true, "typed-error:"+out)
 		}
 	}
+	// a root that names two CRL distribution points: a download failure is reported (exit 3 for the tool) only when
+	// NO point delivers the list; one point down or serving an error page while the other delivers is not a failure
+	pki := w.PKI
+	root2 := world.MakeCert(world.CertSpec{CN: world.CNRoot, IsCA: true, Key: pki.RootKey, MaxPathLen: 1, CRLDP: []string{world.RootCRLURL, c05dp2}}, nil, pki.RootKey)
+	good := w.Getter.Responses[world.RootCRLURL]
+	answers := []struct {
+		name string
+		resp world.Response
+		ok   bool
+	}{{"serves-the-crl", good, true}, {"down", world.Response{Err: errors.New("dial tcp: connection refused")}, false}, {"error-page", world.Response{Body: []byte("<html>503</html>")}, false}}
+	for a := range answers {
+		for b := range answers {
+			id := fmt.Sprintf("typed-error/root-crl-points/first=%s,second=%s", answers[a].name, answers[b].name)
+			if !r.Want(id) {
+				continue
+			}
+			g := w.Getter.Clone()
+			g.Responses[world.URLQeIdentity] = world.Response{Header: map[string][]string{world.HdrQeIdentity: {world.IssuerChainHeader(pki.Tcb, root2)}}, Body: g.Responses[world.URLQeIdentity].Body}
+			g.Responses[world.RootCRLURL], g.Responses[c05dp2] = answers[a].resp, answers[b].resp
+			now := w.Now
+			err := world.SafeVerifyRaw(w.Raw(), &verify.Options{GetCollateral: true, CheckRevocations: true, Getter: g, Now: &now, TrustedRoots: w.Roots})
+			var crlP *verify.CRLUnavailableErr
+			var crlV verify.CRLUnavailableErr
+			unavailable := errors.As(err, &crlP) || errors.As(err, &crlV)
+			out := verdict(err)
+			switch {
+			case world.IsPanic(err):
+			case (answers[a].ok || answers[b].ok) && err != nil:
+				r.Violate("typed-error:download-failure-although-a-point-delivers", id, "one distribution point delivers the Root CA CRL but verification reports: "+errStr(err), nil)
+				out = "reject!"
+			case !answers[a].ok && !answers[b].ok && (err == nil || !unavailable):
+				r.Violate("typed-error:no-point-delivers", id, "no distribution point delivers the Root CA CRL but the result is not a CRL-unavailable error: "+errStr(err), nil)
+				out = "untyped"
+			}
+			r.Eval(id, true, "root-crl-points:"+out)
+		}
+	}
 }
